@@ -136,13 +136,13 @@ def game_check(prop, judged, tier, seed, fam_quick, fam_thorough, mc_roots_quick
         run.cov["cli_divides"] = len(pool)
     positions, pairs = set(), set()
     kinds = {}
-    for path, desc in jobs:
+    judged_jobs = [job for job, res in game.judge_traces(run, jobs, judged)]
+    for path, desc in judged_jobs:          # coverage counters are measured on the traces that were judged
         p, q, k = game.count_trace(path)
         positions |= p
         pairs |= q
         for kk, v in k.items():
             kinds[kk] = kinds.get(kk, 0) + v
-    game.judge_traces(run, jobs, judged)
     run.cov["evaluations"] = sum(kinds.values())
     run.cov["distinct_nontrivial"] = len(pairs)
     run.cov["distinct_positions"] = len(positions)
